@@ -28,6 +28,7 @@ CONSTANTS NF,        \* number of functions
           MaxWrites, \* input writes per behaviour
           Emit,      \* print one REPLAY line per complete behaviour
           Progs,     \* set of programs [calls |-> [F -> Seq(F)], gate |-> [F -> Nat]]
+          MaxPanics, \* user panics (armed at the next body start of a chosen function) per behaviour
           Fb,        \* FALSE: fixpoint functions (cycle_fn / cycle_initial); TRUE: cycle_result (FallbackImmediate)
           Mut        \* mutation switch for self-tests of the model
 
@@ -64,7 +65,8 @@ FbSem(p, b) == [j \in F |-> FbVal(p, b, j, NF + 1)]
 NoHeads == [h \in F |-> -1]
 Only(j, it) == [h \in F |-> IF h = j THEN it ELSE -1]
 HeadSet(hs) == {h \in F : hs[h] # -1}
-NoMemo == [has |-> FALSE, val |-> {}, final |-> FALSE, heads |-> NoHeads, it |-> 0, conv |-> FALSE,
+\* has: a memo exists; hv: it has a value (a memo poisoned by PoisonProvisionalIfPanicking has none)
+NoMemo == [has |-> FALSE, hv |-> FALSE, val |-> {}, final |-> FALSE, heads |-> NoHeads, it |-> 0, conv |-> FALSE,
            vat |-> 0, cat |-> R0, dur |-> NEVER, deps |-> <<>>]
 InSeq(s, x) == \E i \in 1..Len(s) : s[i] = x
 AddDep(s, x) == IF InSeq(s, x) THEN s ELSE Append(s, x)
@@ -86,6 +88,9 @@ variables
     rv = {}, rh = NoHeads, rcat = R0, rdur = NEVER,     \* return registers of Fetch
     rchg = FALSE, rok = FALSE,                          \* return registers of MaybeChanged / DeepVerify
     nops = 0, nwr = 0, lastreq = 1,
+    armed = 0, npan = 0,             \* function whose next body execution panics (0 = none); panics armed so far
+    unw = "",                        \* unwinding: "" | "user" (user panic) | "pp" (Cancelled::PropagatedPanic)
+    lastpanic = 0,                   \* revision of the last user panic
     xlog = <<>>, hist = <<>>,
     bad = {};
 
@@ -155,6 +160,9 @@ define {
     BackdateFires(old, newheads, newdur, newval, newcat) ==
         CanBackdate(old, newheads, newdur, newval) /\ old.cat > newcat /\ HeadSet(old.heads) = {}
 
+    \* PoisonProvisionalIfPanicking::drop: fixpoint initial memo without a value
+    Poison(j) == [has |-> TRUE, hv |-> FALSE, val |-> {}, final |-> FALSE, heads |-> Only(j, 0), it |-> 0, conv |-> FALSE,
+                  vat |-> rev, cat |-> R0, dur |-> NEVER, deps |-> <<>>]
     Expected == IF Fb THEN FbSem(prog, inp) ELSE Lfp(prog, inp)
 }
 
@@ -165,39 +173,45 @@ macro AddHeads(newh) {
 }
 
 procedure Fetch(fq) {
- F0: if (memo[fq].has /\ ShallowOK(memo[fq]) /\ memo[fq].final) {
+ F0: if (memo[fq].has /\ memo[fq].hv /\ ShallowOK(memo[fq]) /\ memo[fq].final) {
         \* fetch_hot (update_shallow marks the memo verified)
         memo[fq].vat := rev;
         rv := memo[fq].val; rh := NoHeads; rcat := memo[fq].cat; rdur := memo[fq].dur;
         return;
      } else if (lock[fq] = "held") {
         \* try_claim == Cycle: fetch_cold_cycle
-        if (memo[fq].has /\ memo[fq].vat = rev /\ memo[fq].heads[fq] # -1) {
+        if (memo[fq].has /\ ~memo[fq].hv /\ ~memo[fq].final /\ memo[fq].vat = rev) {
+            \* a poisoned memo of this revision is not replaced by a new initial value
+            unw := "pp";
+        } else if (memo[fq].has /\ memo[fq].hv /\ memo[fq].vat = rev /\ memo[fq].heads[fq] # -1) {
             rv := memo[fq].val; rh := Only(fq, memo[fq].heads[fq]); rcat := memo[fq].cat; rdur := memo[fq].dur;
             memo[fq].heads := Only(fq, memo[fq].heads[fq]);
         } else {
             rv := {}; rcat := R0; rdur := NEVER;
-            rh := Only(fq, IF memo[fq].has /\ memo[fq].vat = rev THEN memo[fq].it ELSE 0);
-            memo[fq] := [has |-> TRUE, val |-> {}, final |-> FALSE, conv |-> FALSE, vat |-> rev, cat |-> R0,
+            rh := Only(fq, IF memo[fq].has /\ memo[fq].hv /\ memo[fq].vat = rev THEN memo[fq].it ELSE 0);
+            memo[fq] := [has |-> TRUE, hv |-> TRUE, val |-> {}, final |-> FALSE, conv |-> FALSE, vat |-> rev, cat |-> R0,
                          dur |-> NEVER, deps |-> <<>>,
-                         it |-> IF memo[fq].has /\ memo[fq].vat = rev THEN memo[fq].it ELSE 0,
-                         heads |-> Only(fq, IF memo[fq].has /\ memo[fq].vat = rev THEN memo[fq].it ELSE 0)];
+                         it |-> IF memo[fq].has /\ memo[fq].hv /\ memo[fq].vat = rev THEN memo[fq].it ELSE 0,
+                         heads |-> Only(fq, IF memo[fq].has /\ memo[fq].hv /\ memo[fq].vat = rev THEN memo[fq].it ELSE 0)];
         };
         return;
      } else if (lock[fq] = "xfer" /\ ~Owned(fq)) {
         lock[fq] := "free";
         goto F0;
-     } else if (memo[fq].has /\ ShallowOK(memo[fq]) /\ ValidateMaybeProv(fq, memo[fq])) {
+     } else if (memo[fq].has /\ memo[fq].hv /\ ShallowOK(memo[fq]) /\ ValidateMaybeProv(fq, memo[fq])) {
         \* claimed; verify_memo without deep verification (validate_provisional may mark the memo final)
         rv := memo[fq].val; rcat := memo[fq].cat; rdur := memo[fq].dur;
         rh := IF memo[fq].final \/ BecomesFinal(memo[fq]) THEN NoHeads ELSE memo[fq].heads;
         memo[fq] := [memo[fq] EXCEPT !.vat = rev, !.final = @ \/ BecomesFinal(memo[fq])];
         return;
-     } else if (memo[fq].has /\ memo[fq].final) {
+     } else if (memo[fq].has /\ memo[fq].hv /\ memo[fq].final) {
         \* deep_verify_memo of a final memo from an older revision (the claim is kept meanwhile)
         lock[fq] := "held";
         call DeepVerify(fq);
- F3:    if (rok) {
+ F3:    if (unw # "") {
+            lock := Released(fq);        \* the claim guard is dropped while unwinding
+            return;
+        } else if (rok) {
             lock := Released(fq);
             rv := memo[fq].val; rh := NoHeads; rcat := memo[fq].cat; rdur := memo[fq].dur;
             return;
@@ -206,8 +220,10 @@ procedure Fetch(fq) {
         bad := bad \cup {"HeadMemoMissing"};
      };
  F1: call Exec(fq);
- F2: rv := memo[fq].val; rcat := memo[fq].cat; rdur := memo[fq].dur;
-     rh := IF memo[fq].final THEN NoHeads ELSE memo[fq].heads;
+ F2: if (unw = "") {
+        rv := memo[fq].val; rcat := memo[fq].cat; rdur := memo[fq].dur;
+        rh := IF memo[fq].final THEN NoHeads ELSE memo[fq].heads;
+     };
      return;
 }
 
@@ -223,7 +239,7 @@ procedure DeepVerify(dq)
             di := di + 1;
         } else {
             call MaybeChanged(memo[dq].deps[di], dvat);
- D2:        if (rchg) { rok := FALSE; return; } else { di := di + 1; };
+ D2:        if (unw # "" \/ rchg) { rok := FALSE; return; } else { di := di + 1; };
         };
      };
  D3: memo[dq].vat := rev;            \* mark_as_verified
@@ -253,9 +269,16 @@ procedure MaybeChanged(mq, mr) {
         lock[mq] := "held";
         call DeepVerify(mq);
      };
- M1: if (rok) {
+ M1: if (unw # "") {
+        lock := Released(mq);
+        return;
+     } else if (rok) {
         lock := Released(mq);
         rchg := memo[mq].cat > mr;
+        return;
+     } else if (~memo[mq].hv) {
+        lock := Released(mq);
+        rchg := TRUE;
         return;
      };
  M2: call Exec(mq);
@@ -267,20 +290,33 @@ procedure Exec(eq)
   variables ci = 1; acc = {}; rounds = 0; iteration = 0; old = NoMemo; lphas = FALSE; lp = NoMemo;
             P = {}; nh = NoHeads; dep = FALSE; cit = 0; last = NoMemo; flat = <<>>;
 {
- E0: lock[eq] := "held";
-     old := memo[eq];
-     iteration := IF memo[eq].has /\ memo[eq].vat = rev THEN memo[eq].it ELSE 0;
-     lphas := memo[eq].has /\ memo[eq].vat = rev /\ memo[eq].heads[eq] # -1;
-     lp := memo[eq];
-     qstack := Append(qstack, eq);
-     fr := Append(fr, Frame0);
+ E0: if (memo[eq].has /\ memo[eq].vat = rev /\ ~memo[eq].hv) {
+        \* previous_iteration: a cycle query that panicked earlier in this revision propagates the panic
+        unw := "pp";
+        lock := Released(eq);
+        return;
+     } else {
+        lock[eq] := "held";
+        old := memo[eq];
+        iteration := IF memo[eq].has /\ memo[eq].vat = rev THEN memo[eq].it ELSE 0;
+        lphas := memo[eq].has /\ memo[eq].hv /\ memo[eq].vat = rev /\ memo[eq].heads[eq] # -1;
+        lp := memo[eq];
+        qstack := Append(qstack, eq);
+        fr := Append(fr, Frame0);
+     };
  E1: \* one execution of the body; seed_active_query(last provisional memo, else the old memo)
      ci := 1; acc := {eq};
      xlog := Append(xlog, eq);
-     with (hdr = IF lphas THEN lp ELSE old) {
-        fr[Top] := IF hdr.has /\ ~hdr.final /\ hdr.vat = rev
-                   THEN [Frame0 EXCEPT !.cat = Max2(R0, hdr.cat), !.dur = Min2(NEVER, hdr.dur)]
-                   ELSE Frame0;
+     if (armed = eq) {
+        \* user code panics at the start of the body
+        armed := 0; unw := "user"; lastpanic := rev;
+        goto EU;
+     } else {
+        with (hdr = IF lphas THEN lp ELSE old) {
+           fr[Top] := IF hdr.has /\ ~hdr.final /\ hdr.vat = rev
+                      THEN [Frame0 EXCEPT !.cat = Max2(R0, hdr.cat), !.dur = Min2(NEVER, hdr.dur)]
+                      ELSE Frame0;
+        };
      };
  E2: while (ci <= Len(calls[eq])) {
         if (gate[eq] = ci) {
@@ -291,7 +327,8 @@ procedure Exec(eq)
             ci := ci + 1;
         } else {
             call Fetch(calls[eq][ci]);
- E3:        acc := acc \cup rv;
+ E3:        if (unw # "") { goto EU; };
+ E3b:       acc := acc \cup rv;
             AddHeads(rh);
             fr[Top] := [fr[Top] EXCEPT
                           !.heads = [h \in F |-> IF @[h] # -1 THEN @[h] ELSE rh[h]],
@@ -303,7 +340,7 @@ procedure Exec(eq)
  E4: \* try_complete_query
      if (HeadSet(fr[Top].heads) = {}) {
         if (BackdateFires(old, NoHeads, fr[Top].dur, acc, fr[Top].cat)) { bad := bad \cup {"BackdateViolation"}; };
-        memo[eq] := [has |-> TRUE, val |-> acc, final |-> TRUE, heads |-> NoHeads, conv |-> FALSE, vat |-> rev,
+        memo[eq] := [has |-> TRUE, hv |-> TRUE, val |-> acc, final |-> TRUE, heads |-> NoHeads, conv |-> FALSE, vat |-> rev,
                      it |-> IF iteration = 0 THEN 0 ELSE iteration + 1,
                      cat |-> Backdated(old, NoHeads, fr[Top].dur, acc, fr[Top].cat), dur |-> fr[Top].dur,
                      deps |-> IF fr[Top].dur = NEVER THEN <<>> ELSE fr[Top].deps];
@@ -331,7 +368,7 @@ procedure Exec(eq)
             xto[eq] := OuterOf(nh, eq);
         };
         \* (FallbackImmediate: every participant of a cycle takes its fallback value)
-        memo[eq] := [has |-> TRUE, val |-> IF Fb THEN {} ELSE acc, final |-> FALSE, heads |-> nh, conv |-> FALSE, it |-> iteration + 1,
+        memo[eq] := [has |-> TRUE, hv |-> TRUE, val |-> IF Fb THEN {} ELSE acc, final |-> FALSE, heads |-> nh, conv |-> FALSE, it |-> iteration + 1,
                      vat |-> rev, cat |-> fr[Top].cat, dur |-> fr[Top].dur, deps |-> flat];
      } else {
         if (~lphas /\ ~memo[eq].has) { bad := bad \cup {"NoProvisionalMemo"}; };
@@ -339,7 +376,7 @@ procedure Exec(eq)
         acc := IF Fb THEN {} ELSE acc;
  E8:    if (HasOuter(nh, eq)) {
             \* nested head: iterated as part of the outer cycle
-            memo[eq] := [has |-> TRUE, val |-> acc, final |-> FALSE, heads |-> nh, it |-> iteration, vat |-> rev,
+            memo[eq] := [has |-> TRUE, hv |-> TRUE, val |-> acc, final |-> FALSE, heads |-> nh, it |-> iteration, vat |-> rev,
                          conv |-> (acc = last.val /\ last.dur = fr[Top].dur /\ last.cat = fr[Top].cat),
                          cat |-> fr[Top].cat, dur |-> fr[Top].dur, deps |-> flat];
             lock[eq] := "xfer";
@@ -349,7 +386,7 @@ procedure Exec(eq)
             \* outermost head, converged: finalize itself and the nested heads
             if (BackdateFires(old, NoHeads, fr[Top].dur, acc, fr[Top].cat)) { bad := bad \cup {"BackdateViolation"}; };
             memo := [j \in F |->
-                      IF j = eq THEN [has |-> TRUE, val |-> acc, final |-> TRUE, heads |-> NoHeads, conv |-> FALSE,
+                      IF j = eq THEN [has |-> TRUE, hv |-> TRUE, val |-> acc, final |-> TRUE, heads |-> NoHeads, conv |-> FALSE,
                                       it |-> iteration, vat |-> rev, dur |-> fr[Top].dur,
                                       cat |-> Backdated(old, NoHeads, fr[Top].dur, acc, fr[Top].cat),
                                       deps |-> IF fr[Top].dur = NEVER THEN <<>> ELSE flat]
@@ -359,7 +396,7 @@ procedure Exec(eq)
         } else {
             \* iterate again
             memo := [j \in F |->
-                      IF j = eq THEN [has |-> TRUE, val |-> acc, final |-> FALSE, conv |-> FALSE, it |-> cit + 1,
+                      IF j = eq THEN [has |-> TRUE, hv |-> TRUE, val |-> acc, final |-> FALSE, conv |-> FALSE, it |-> cit + 1,
                                       vat |-> rev, cat |-> fr[Top].cat, dur |-> fr[Top].dur, deps |-> flat,
                                       heads |-> [nh EXCEPT ![eq] = cit + 1]]
                       ELSE IF j \in HeadSet(nh) /\ memo[j].has
@@ -368,7 +405,7 @@ procedure Exec(eq)
                       ELSE memo[j]];
             iteration := cit + 1;
             lphas := TRUE;
-            lp := [has |-> TRUE, val |-> acc, final |-> FALSE, conv |-> FALSE, it |-> cit + 1,
+            lp := [has |-> TRUE, hv |-> TRUE, val |-> acc, final |-> FALSE, conv |-> FALSE, it |-> cit + 1,
                    vat |-> rev, cat |-> fr[Top].cat, dur |-> fr[Top].dur, deps |-> flat,
                    heads |-> [nh EXCEPT ![eq] = cit + 1]];
             rounds := rounds + 1;
@@ -378,18 +415,29 @@ procedure Exec(eq)
  E6: qstack := SubSeq(qstack, 1, Len(qstack) - 1);
      fr := SubSeq(fr, 1, Len(fr) - 1);
      return;
+ EU: \* unwinding through execute_maybe_iterate: the frame is popped, the memo is poisoned, the claim is released
+     memo[eq] := Poison(eq);
+     lock := Released(eq);
+     qstack := SubSeq(qstack, 1, Len(qstack) - 1);
+     fr := SubSeq(fr, 1, Len(fr) - 1);
+     return;
 }
 
 {
  L0: while (nops < MaxOps) {
         either {
             with (j \in F) { lastreq := j; call Fetch(j); };
- L1:        bad := bad \cup (IF rv # Expected[lastreq] THEN {IF Fb THEN "C13" ELSE "C12"} ELSE {})
+ L1:        \* a value must be the from-scratch value; a propagated panic is only allowed in a revision in which a
+            \* panic occurred (C22); nothing stays claimed or on the stack
+            bad := bad \cup (IF unw = "" /\ rv # Expected[lastreq] THEN {IF Fb THEN "C13" ELSE "C12"} ELSE {})
+                       \cup (IF unw = "pp" /\ lastpanic # rev THEN {"C22-PropagatedPanicInLaterRevision"} ELSE {})
                        \cup (IF qstack # <<>> THEN {"StackLeft"} ELSE {})
                        \cup (IF \E j \in F : lock[j] = "held" \/ (lock[j] = "xfer" /\ Owned(j)) THEN {"LockLeft"} ELSE {});
             nops := nops + 1;
-            hist := Append(hist, [op |-> "get", f |-> lastreq, v |-> rv, ex |-> xlog]);
+            hist := Append(hist, [op |-> "get", f |-> lastreq, v |-> IF unw = "" THEN rv ELSE {}, ex |-> xlog,
+                                  res |-> IF unw = "" THEN "ok" ELSE unw]);
             xlog := <<>>;
+            unw := "";
         } or {
             await nwr < MaxWrites;
             inp := ~inp;
@@ -397,7 +445,15 @@ procedure Exec(eq)
             lastchg := rev;
             nwr := nwr + 1;
             nops := nops + 1;
-            hist := Append(hist, [op |-> "set", f |-> 0, v |-> {}, ex |-> <<>>]);
+            hist := Append(hist, [op |-> "set", f |-> 0, v |-> {}, ex |-> <<>>, res |-> "ok"]);
+        } or {
+            await npan < MaxPanics /\ armed = 0;
+            with (j \in F) {
+                armed := j;
+                hist := Append(hist, [op |-> "arm", f |-> j, v |-> {}, ex |-> <<>>, res |-> "ok"]);
+            };
+            npan := npan + 1;
+            nops := nops + 1;
         };
      };
  L2: if (Emit) { print "REPLAY|" \o ToJson([calls |-> prog.calls, gate |-> prog.gate, inp0 |-> IF (nwr % 2 = 0) = inp THEN 1 ELSE 0, h |-> hist]); };
@@ -406,7 +462,8 @@ procedure Exec(eq)
 \* BEGIN TRANSLATION
 CONSTANT defaultInitValue
 VARIABLES pc, prog, inp, rev, lastchg, memo, lock, xto, qstack, fr, rv, rh, 
-          rcat, rdur, rchg, rok, nops, nwr, lastreq, xlog, hist, bad, stack
+          rcat, rdur, rchg, rok, nops, nwr, lastreq, armed, npan, unw, 
+          lastpanic, xlog, hist, bad, stack
 
 (* define statement *)
 calls == prog.calls
@@ -474,15 +531,19 @@ Backdated(old, newheads, newdur, newval, newcat) ==
 BackdateFires(old, newheads, newdur, newval, newcat) ==
     CanBackdate(old, newheads, newdur, newval) /\ old.cat > newcat /\ HeadSet(old.heads) = {}
 
+
+Poison(j) == [has |-> TRUE, hv |-> FALSE, val |-> {}, final |-> FALSE, heads |-> Only(j, 0), it |-> 0, conv |-> FALSE,
+              vat |-> rev, cat |-> R0, dur |-> NEVER, deps |-> <<>>]
 Expected == IF Fb THEN FbSem(prog, inp) ELSE Lfp(prog, inp)
 
 VARIABLES fq, dq, di, dvat, mq, mr, eq, ci, acc, rounds, iteration, old, 
           lphas, lp, P, nh, dep, cit, last, flat
 
 vars == << pc, prog, inp, rev, lastchg, memo, lock, xto, qstack, fr, rv, rh, 
-           rcat, rdur, rchg, rok, nops, nwr, lastreq, xlog, hist, bad, stack, 
-           fq, dq, di, dvat, mq, mr, eq, ci, acc, rounds, iteration, old, 
-           lphas, lp, P, nh, dep, cit, last, flat >>
+           rcat, rdur, rchg, rok, nops, nwr, lastreq, armed, npan, unw, 
+           lastpanic, xlog, hist, bad, stack, fq, dq, di, dvat, mq, mr, eq, 
+           ci, acc, rounds, iteration, old, lphas, lp, P, nh, dep, cit, last, 
+           flat >>
 
 Init == (* Global variables *)
         /\ prog \in Progs
@@ -503,6 +564,10 @@ Init == (* Global variables *)
         /\ nops = 0
         /\ nwr = 0
         /\ lastreq = 1
+        /\ armed = 0
+        /\ npan = 0
+        /\ unw = ""
+        /\ lastpanic = 0
         /\ xlog = <<>>
         /\ hist = <<>>
         /\ bad = {}
@@ -534,7 +599,7 @@ Init == (* Global variables *)
         /\ pc = "L0"
 
 F0 == /\ pc = "F0"
-      /\ IF memo[fq].has /\ ShallowOK(memo[fq]) /\ memo[fq].final
+      /\ IF memo[fq].has /\ memo[fq].hv /\ ShallowOK(memo[fq]) /\ memo[fq].final
             THEN /\ memo' = [memo EXCEPT ![fq].vat = rev]
                  /\ rv' = memo'[fq].val
                  /\ rh' = NoHeads
@@ -543,22 +608,27 @@ F0 == /\ pc = "F0"
                  /\ pc' = Head(stack).pc
                  /\ fq' = Head(stack).fq
                  /\ stack' = Tail(stack)
-                 /\ UNCHANGED << lock, bad, dq, di, dvat >>
+                 /\ UNCHANGED << lock, unw, bad, dq, di, dvat >>
             ELSE /\ IF lock[fq] = "held"
-                       THEN /\ IF memo[fq].has /\ memo[fq].vat = rev /\ memo[fq].heads[fq] # -1
-                                  THEN /\ rv' = memo[fq].val
-                                       /\ rh' = Only(fq, memo[fq].heads[fq])
-                                       /\ rcat' = memo[fq].cat
-                                       /\ rdur' = memo[fq].dur
-                                       /\ memo' = [memo EXCEPT ![fq].heads = Only(fq, memo[fq].heads[fq])]
-                                  ELSE /\ rv' = {}
-                                       /\ rcat' = R0
-                                       /\ rdur' = NEVER
-                                       /\ rh' = Only(fq, IF memo[fq].has /\ memo[fq].vat = rev THEN memo[fq].it ELSE 0)
-                                       /\ memo' = [memo EXCEPT ![fq] = [has |-> TRUE, val |-> {}, final |-> FALSE, conv |-> FALSE, vat |-> rev, cat |-> R0,
-                                                                        dur |-> NEVER, deps |-> <<>>,
-                                                                        it |-> IF memo[fq].has /\ memo[fq].vat = rev THEN memo[fq].it ELSE 0,
-                                                                        heads |-> Only(fq, IF memo[fq].has /\ memo[fq].vat = rev THEN memo[fq].it ELSE 0)]]
+                       THEN /\ IF memo[fq].has /\ ~memo[fq].hv /\ ~memo[fq].final /\ memo[fq].vat = rev
+                                  THEN /\ unw' = "pp"
+                                       /\ UNCHANGED << memo, rv, rh, rcat, 
+                                                       rdur >>
+                                  ELSE /\ IF memo[fq].has /\ memo[fq].hv /\ memo[fq].vat = rev /\ memo[fq].heads[fq] # -1
+                                             THEN /\ rv' = memo[fq].val
+                                                  /\ rh' = Only(fq, memo[fq].heads[fq])
+                                                  /\ rcat' = memo[fq].cat
+                                                  /\ rdur' = memo[fq].dur
+                                                  /\ memo' = [memo EXCEPT ![fq].heads = Only(fq, memo[fq].heads[fq])]
+                                             ELSE /\ rv' = {}
+                                                  /\ rcat' = R0
+                                                  /\ rdur' = NEVER
+                                                  /\ rh' = Only(fq, IF memo[fq].has /\ memo[fq].hv /\ memo[fq].vat = rev THEN memo[fq].it ELSE 0)
+                                                  /\ memo' = [memo EXCEPT ![fq] = [has |-> TRUE, hv |-> TRUE, val |-> {}, final |-> FALSE, conv |-> FALSE, vat |-> rev, cat |-> R0,
+                                                                                   dur |-> NEVER, deps |-> <<>>,
+                                                                                   it |-> IF memo[fq].has /\ memo[fq].hv /\ memo[fq].vat = rev THEN memo[fq].it ELSE 0,
+                                                                                   heads |-> Only(fq, IF memo[fq].has /\ memo[fq].hv /\ memo[fq].vat = rev THEN memo[fq].it ELSE 0)]]
+                                       /\ unw' = unw
                             /\ pc' = Head(stack).pc
                             /\ fq' = Head(stack).fq
                             /\ stack' = Tail(stack)
@@ -569,7 +639,7 @@ F0 == /\ pc = "F0"
                                        /\ UNCHANGED << memo, rv, rh, rcat, 
                                                        rdur, bad, stack, fq, 
                                                        dq, di, dvat >>
-                                  ELSE /\ IF memo[fq].has /\ ShallowOK(memo[fq]) /\ ValidateMaybeProv(fq, memo[fq])
+                                  ELSE /\ IF memo[fq].has /\ memo[fq].hv /\ ShallowOK(memo[fq]) /\ ValidateMaybeProv(fq, memo[fq])
                                              THEN /\ rv' = memo[fq].val
                                                   /\ rcat' = memo[fq].cat
                                                   /\ rdur' = memo[fq].dur
@@ -580,7 +650,7 @@ F0 == /\ pc = "F0"
                                                   /\ stack' = Tail(stack)
                                                   /\ UNCHANGED << lock, bad, 
                                                                   dq, di, dvat >>
-                                             ELSE /\ IF memo[fq].has /\ memo[fq].final
+                                             ELSE /\ IF memo[fq].has /\ memo[fq].hv /\ memo[fq].final
                                                         THEN /\ lock' = [lock EXCEPT ![fq] = "held"]
                                                              /\ /\ dq' = fq
                                                                 /\ stack' = << [ procedure |->  "DeepVerify",
@@ -606,27 +676,36 @@ F0 == /\ pc = "F0"
                                                   /\ UNCHANGED << memo, rv, rh, 
                                                                   rcat, rdur, 
                                                                   fq >>
+                            /\ unw' = unw
       /\ UNCHANGED << prog, inp, rev, lastchg, xto, qstack, fr, rchg, rok, 
-                      nops, nwr, lastreq, xlog, hist, mq, mr, eq, ci, acc, 
-                      rounds, iteration, old, lphas, lp, P, nh, dep, cit, last, 
-                      flat >>
+                      nops, nwr, lastreq, armed, npan, lastpanic, xlog, hist, 
+                      mq, mr, eq, ci, acc, rounds, iteration, old, lphas, lp, 
+                      P, nh, dep, cit, last, flat >>
 
 F3 == /\ pc = "F3"
-      /\ IF rok
+      /\ IF unw # ""
             THEN /\ lock' = Released(fq)
-                 /\ rv' = memo[fq].val
-                 /\ rh' = NoHeads
-                 /\ rcat' = memo[fq].cat
-                 /\ rdur' = memo[fq].dur
                  /\ pc' = Head(stack).pc
                  /\ fq' = Head(stack).fq
                  /\ stack' = Tail(stack)
-            ELSE /\ pc' = "F1"
-                 /\ UNCHANGED << lock, rv, rh, rcat, rdur, stack, fq >>
+                 /\ UNCHANGED << rv, rh, rcat, rdur >>
+            ELSE /\ IF rok
+                       THEN /\ lock' = Released(fq)
+                            /\ rv' = memo[fq].val
+                            /\ rh' = NoHeads
+                            /\ rcat' = memo[fq].cat
+                            /\ rdur' = memo[fq].dur
+                            /\ pc' = Head(stack).pc
+                            /\ fq' = Head(stack).fq
+                            /\ stack' = Tail(stack)
+                       ELSE /\ pc' = "F1"
+                            /\ UNCHANGED << lock, rv, rh, rcat, rdur, stack, 
+                                            fq >>
       /\ UNCHANGED << prog, inp, rev, lastchg, memo, xto, qstack, fr, rchg, 
-                      rok, nops, nwr, lastreq, xlog, hist, bad, dq, di, dvat, 
-                      mq, mr, eq, ci, acc, rounds, iteration, old, lphas, lp, 
-                      P, nh, dep, cit, last, flat >>
+                      rok, nops, nwr, lastreq, armed, npan, unw, lastpanic, 
+                      xlog, hist, bad, dq, di, dvat, mq, mr, eq, ci, acc, 
+                      rounds, iteration, old, lphas, lp, P, nh, dep, cit, last, 
+                      flat >>
 
 F1 == /\ pc = "F1"
       /\ /\ eq' = fq
@@ -662,21 +741,26 @@ F1 == /\ pc = "F1"
       /\ flat' = <<>>
       /\ pc' = "E0"
       /\ UNCHANGED << prog, inp, rev, lastchg, memo, lock, xto, qstack, fr, rv, 
-                      rh, rcat, rdur, rchg, rok, nops, nwr, lastreq, xlog, 
-                      hist, bad, fq, dq, di, dvat, mq, mr >>
+                      rh, rcat, rdur, rchg, rok, nops, nwr, lastreq, armed, 
+                      npan, unw, lastpanic, xlog, hist, bad, fq, dq, di, dvat, 
+                      mq, mr >>
 
 F2 == /\ pc = "F2"
-      /\ rv' = memo[fq].val
-      /\ rcat' = memo[fq].cat
-      /\ rdur' = memo[fq].dur
-      /\ rh' = IF memo[fq].final THEN NoHeads ELSE memo[fq].heads
+      /\ IF unw = ""
+            THEN /\ rv' = memo[fq].val
+                 /\ rcat' = memo[fq].cat
+                 /\ rdur' = memo[fq].dur
+                 /\ rh' = IF memo[fq].final THEN NoHeads ELSE memo[fq].heads
+            ELSE /\ TRUE
+                 /\ UNCHANGED << rv, rh, rcat, rdur >>
       /\ pc' = Head(stack).pc
       /\ fq' = Head(stack).fq
       /\ stack' = Tail(stack)
       /\ UNCHANGED << prog, inp, rev, lastchg, memo, lock, xto, qstack, fr, 
-                      rchg, rok, nops, nwr, lastreq, xlog, hist, bad, dq, di, 
-                      dvat, mq, mr, eq, ci, acc, rounds, iteration, old, lphas, 
-                      lp, P, nh, dep, cit, last, flat >>
+                      rchg, rok, nops, nwr, lastreq, armed, npan, unw, 
+                      lastpanic, xlog, hist, bad, dq, di, dvat, mq, mr, eq, ci, 
+                      acc, rounds, iteration, old, lphas, lp, P, nh, dep, cit, 
+                      last, flat >>
 
 Fetch == F0 \/ F3 \/ F1 \/ F2
 
@@ -684,10 +768,10 @@ D0 == /\ pc = "D0"
       /\ dvat' = memo[dq].vat
       /\ pc' = "D1"
       /\ UNCHANGED << prog, inp, rev, lastchg, memo, lock, xto, qstack, fr, rv, 
-                      rh, rcat, rdur, rchg, rok, nops, nwr, lastreq, xlog, 
-                      hist, bad, stack, fq, dq, di, mq, mr, eq, ci, acc, 
-                      rounds, iteration, old, lphas, lp, P, nh, dep, cit, last, 
-                      flat >>
+                      rh, rcat, rdur, rchg, rok, nops, nwr, lastreq, armed, 
+                      npan, unw, lastpanic, xlog, hist, bad, stack, fq, dq, di, 
+                      mq, mr, eq, ci, acc, rounds, iteration, old, lphas, lp, 
+                      P, nh, dep, cit, last, flat >>
 
 D1 == /\ pc = "D1"
       /\ IF di <= Len(memo[dq].deps)
@@ -720,12 +804,12 @@ D1 == /\ pc = "D1"
             ELSE /\ pc' = "D3"
                  /\ UNCHANGED << rok, stack, dq, di, dvat, mq, mr >>
       /\ UNCHANGED << prog, inp, rev, lastchg, memo, lock, xto, qstack, fr, rv, 
-                      rh, rcat, rdur, rchg, nops, nwr, lastreq, xlog, hist, 
-                      bad, fq, eq, ci, acc, rounds, iteration, old, lphas, lp, 
-                      P, nh, dep, cit, last, flat >>
+                      rh, rcat, rdur, rchg, nops, nwr, lastreq, armed, npan, 
+                      unw, lastpanic, xlog, hist, bad, fq, eq, ci, acc, rounds, 
+                      iteration, old, lphas, lp, P, nh, dep, cit, last, flat >>
 
 D2 == /\ pc = "D2"
-      /\ IF rchg
+      /\ IF unw # "" \/ rchg
             THEN /\ rok' = FALSE
                  /\ pc' = Head(stack).pc
                  /\ di' = Head(stack).di
@@ -736,9 +820,10 @@ D2 == /\ pc = "D2"
                  /\ pc' = "D1"
                  /\ UNCHANGED << rok, stack, dq, dvat >>
       /\ UNCHANGED << prog, inp, rev, lastchg, memo, lock, xto, qstack, fr, rv, 
-                      rh, rcat, rdur, rchg, nops, nwr, lastreq, xlog, hist, 
-                      bad, fq, mq, mr, eq, ci, acc, rounds, iteration, old, 
-                      lphas, lp, P, nh, dep, cit, last, flat >>
+                      rh, rcat, rdur, rchg, nops, nwr, lastreq, armed, npan, 
+                      unw, lastpanic, xlog, hist, bad, fq, mq, mr, eq, ci, acc, 
+                      rounds, iteration, old, lphas, lp, P, nh, dep, cit, last, 
+                      flat >>
 
 D3 == /\ pc = "D3"
       /\ memo' = [memo EXCEPT ![dq].vat = rev]
@@ -749,9 +834,10 @@ D3 == /\ pc = "D3"
       /\ dq' = Head(stack).dq
       /\ stack' = Tail(stack)
       /\ UNCHANGED << prog, inp, rev, lastchg, lock, xto, qstack, fr, rv, rh, 
-                      rcat, rdur, rchg, nops, nwr, lastreq, xlog, hist, bad, 
-                      fq, mq, mr, eq, ci, acc, rounds, iteration, old, lphas, 
-                      lp, P, nh, dep, cit, last, flat >>
+                      rcat, rdur, rchg, nops, nwr, lastreq, armed, npan, unw, 
+                      lastpanic, xlog, hist, bad, fq, mq, mr, eq, ci, acc, 
+                      rounds, iteration, old, lphas, lp, P, nh, dep, cit, last, 
+                      flat >>
 
 DeepVerify == D0 \/ D1 \/ D2 \/ D3
 
@@ -814,24 +900,40 @@ M0 == /\ pc = "M0"
                                                                              mr >>
                                                   /\ memo' = memo
       /\ UNCHANGED << prog, inp, rev, lastchg, xto, qstack, fr, rv, rh, rcat, 
-                      rdur, rok, nops, nwr, lastreq, xlog, hist, bad, fq, eq, 
-                      ci, acc, rounds, iteration, old, lphas, lp, P, nh, dep, 
-                      cit, last, flat >>
+                      rdur, rok, nops, nwr, lastreq, armed, npan, unw, 
+                      lastpanic, xlog, hist, bad, fq, eq, ci, acc, rounds, 
+                      iteration, old, lphas, lp, P, nh, dep, cit, last, flat >>
 
 M1 == /\ pc = "M1"
-      /\ IF rok
+      /\ IF unw # ""
             THEN /\ lock' = Released(mq)
-                 /\ rchg' = (memo[mq].cat > mr)
                  /\ pc' = Head(stack).pc
                  /\ mq' = Head(stack).mq
                  /\ mr' = Head(stack).mr
                  /\ stack' = Tail(stack)
-            ELSE /\ pc' = "M2"
-                 /\ UNCHANGED << lock, rchg, stack, mq, mr >>
+                 /\ rchg' = rchg
+            ELSE /\ IF rok
+                       THEN /\ lock' = Released(mq)
+                            /\ rchg' = (memo[mq].cat > mr)
+                            /\ pc' = Head(stack).pc
+                            /\ mq' = Head(stack).mq
+                            /\ mr' = Head(stack).mr
+                            /\ stack' = Tail(stack)
+                       ELSE /\ IF ~memo[mq].hv
+                                  THEN /\ lock' = Released(mq)
+                                       /\ rchg' = TRUE
+                                       /\ pc' = Head(stack).pc
+                                       /\ mq' = Head(stack).mq
+                                       /\ mr' = Head(stack).mr
+                                       /\ stack' = Tail(stack)
+                                  ELSE /\ pc' = "M2"
+                                       /\ UNCHANGED << lock, rchg, stack, mq, 
+                                                       mr >>
       /\ UNCHANGED << prog, inp, rev, lastchg, memo, xto, qstack, fr, rv, rh, 
-                      rcat, rdur, rok, nops, nwr, lastreq, xlog, hist, bad, fq, 
-                      dq, di, dvat, eq, ci, acc, rounds, iteration, old, lphas, 
-                      lp, P, nh, dep, cit, last, flat >>
+                      rcat, rdur, rok, nops, nwr, lastreq, armed, npan, unw, 
+                      lastpanic, xlog, hist, bad, fq, dq, di, dvat, eq, ci, 
+                      acc, rounds, iteration, old, lphas, lp, P, nh, dep, cit, 
+                      last, flat >>
 
 M2 == /\ pc = "M2"
       /\ /\ eq' = mq
@@ -867,8 +969,9 @@ M2 == /\ pc = "M2"
       /\ flat' = <<>>
       /\ pc' = "E0"
       /\ UNCHANGED << prog, inp, rev, lastchg, memo, lock, xto, qstack, fr, rv, 
-                      rh, rcat, rdur, rchg, rok, nops, nwr, lastreq, xlog, 
-                      hist, bad, fq, dq, di, dvat, mq, mr >>
+                      rh, rcat, rdur, rchg, rok, nops, nwr, lastreq, armed, 
+                      npan, unw, lastpanic, xlog, hist, bad, fq, dq, di, dvat, 
+                      mq, mr >>
 
 M3 == /\ pc = "M3"
       /\ rchg' = (memo[mq].cat > mr \/ ~memo[mq].final)
@@ -877,39 +980,68 @@ M3 == /\ pc = "M3"
       /\ mr' = Head(stack).mr
       /\ stack' = Tail(stack)
       /\ UNCHANGED << prog, inp, rev, lastchg, memo, lock, xto, qstack, fr, rv, 
-                      rh, rcat, rdur, rok, nops, nwr, lastreq, xlog, hist, bad, 
-                      fq, dq, di, dvat, eq, ci, acc, rounds, iteration, old, 
-                      lphas, lp, P, nh, dep, cit, last, flat >>
+                      rh, rcat, rdur, rok, nops, nwr, lastreq, armed, npan, 
+                      unw, lastpanic, xlog, hist, bad, fq, dq, di, dvat, eq, 
+                      ci, acc, rounds, iteration, old, lphas, lp, P, nh, dep, 
+                      cit, last, flat >>
 
 MaybeChanged == M0 \/ M1 \/ M2 \/ M3
 
 E0 == /\ pc = "E0"
-      /\ lock' = [lock EXCEPT ![eq] = "held"]
-      /\ old' = memo[eq]
-      /\ iteration' = (IF memo[eq].has /\ memo[eq].vat = rev THEN memo[eq].it ELSE 0)
-      /\ lphas' = (memo[eq].has /\ memo[eq].vat = rev /\ memo[eq].heads[eq] # -1)
-      /\ lp' = memo[eq]
-      /\ qstack' = Append(qstack, eq)
-      /\ fr' = Append(fr, Frame0)
-      /\ pc' = "E1"
+      /\ IF memo[eq].has /\ memo[eq].vat = rev /\ ~memo[eq].hv
+            THEN /\ unw' = "pp"
+                 /\ lock' = Released(eq)
+                 /\ pc' = Head(stack).pc
+                 /\ ci' = Head(stack).ci
+                 /\ acc' = Head(stack).acc
+                 /\ rounds' = Head(stack).rounds
+                 /\ iteration' = Head(stack).iteration
+                 /\ old' = Head(stack).old
+                 /\ lphas' = Head(stack).lphas
+                 /\ lp' = Head(stack).lp
+                 /\ P' = Head(stack).P
+                 /\ nh' = Head(stack).nh
+                 /\ dep' = Head(stack).dep
+                 /\ cit' = Head(stack).cit
+                 /\ last' = Head(stack).last
+                 /\ flat' = Head(stack).flat
+                 /\ eq' = Head(stack).eq
+                 /\ stack' = Tail(stack)
+                 /\ UNCHANGED << qstack, fr >>
+            ELSE /\ lock' = [lock EXCEPT ![eq] = "held"]
+                 /\ old' = memo[eq]
+                 /\ iteration' = (IF memo[eq].has /\ memo[eq].vat = rev THEN memo[eq].it ELSE 0)
+                 /\ lphas' = (memo[eq].has /\ memo[eq].hv /\ memo[eq].vat = rev /\ memo[eq].heads[eq] # -1)
+                 /\ lp' = memo[eq]
+                 /\ qstack' = Append(qstack, eq)
+                 /\ fr' = Append(fr, Frame0)
+                 /\ pc' = "E1"
+                 /\ UNCHANGED << unw, stack, eq, ci, acc, rounds, P, nh, dep, 
+                                 cit, last, flat >>
       /\ UNCHANGED << prog, inp, rev, lastchg, memo, xto, rv, rh, rcat, rdur, 
-                      rchg, rok, nops, nwr, lastreq, xlog, hist, bad, stack, 
-                      fq, dq, di, dvat, mq, mr, eq, ci, acc, rounds, P, nh, 
-                      dep, cit, last, flat >>
+                      rchg, rok, nops, nwr, lastreq, armed, npan, lastpanic, 
+                      xlog, hist, bad, fq, dq, di, dvat, mq, mr >>
 
 E1 == /\ pc = "E1"
       /\ ci' = 1
       /\ acc' = {eq}
       /\ xlog' = Append(xlog, eq)
-      /\ LET hdr == IF lphas THEN lp ELSE old IN
-           fr' = [fr EXCEPT ![Top] = IF hdr.has /\ ~hdr.final /\ hdr.vat = rev
-                                     THEN [Frame0 EXCEPT !.cat = Max2(R0, hdr.cat), !.dur = Min2(NEVER, hdr.dur)]
-                                     ELSE Frame0]
-      /\ pc' = "E2"
+      /\ IF armed = eq
+            THEN /\ armed' = 0
+                 /\ unw' = "user"
+                 /\ lastpanic' = rev
+                 /\ pc' = "EU"
+                 /\ fr' = fr
+            ELSE /\ LET hdr == IF lphas THEN lp ELSE old IN
+                      fr' = [fr EXCEPT ![Top] = IF hdr.has /\ ~hdr.final /\ hdr.vat = rev
+                                                THEN [Frame0 EXCEPT !.cat = Max2(R0, hdr.cat), !.dur = Min2(NEVER, hdr.dur)]
+                                                ELSE Frame0]
+                 /\ pc' = "E2"
+                 /\ UNCHANGED << armed, unw, lastpanic >>
       /\ UNCHANGED << prog, inp, rev, lastchg, memo, lock, xto, qstack, rv, rh, 
-                      rcat, rdur, rchg, rok, nops, nwr, lastreq, hist, bad, 
-                      stack, fq, dq, di, dvat, mq, mr, eq, rounds, iteration, 
-                      old, lphas, lp, P, nh, dep, cit, last, flat >>
+                      rcat, rdur, rchg, rok, nops, nwr, lastreq, npan, hist, 
+                      bad, stack, fq, dq, di, dvat, mq, mr, eq, rounds, 
+                      iteration, old, lphas, lp, P, nh, dep, cit, last, flat >>
 
 E2 == /\ pc = "E2"
       /\ IF ci <= Len(calls[eq])
@@ -931,26 +1063,38 @@ E2 == /\ pc = "E2"
             ELSE /\ pc' = "E4"
                  /\ UNCHANGED << fr, stack, fq, ci >>
       /\ UNCHANGED << prog, inp, rev, lastchg, memo, lock, xto, qstack, rv, rh, 
-                      rcat, rdur, rchg, rok, nops, nwr, lastreq, xlog, hist, 
-                      bad, dq, di, dvat, mq, mr, eq, acc, rounds, iteration, 
-                      old, lphas, lp, P, nh, dep, cit, last, flat >>
+                      rcat, rdur, rchg, rok, nops, nwr, lastreq, armed, npan, 
+                      unw, lastpanic, xlog, hist, bad, dq, di, dvat, mq, mr, 
+                      eq, acc, rounds, iteration, old, lphas, lp, P, nh, dep, 
+                      cit, last, flat >>
 
 E3 == /\ pc = "E3"
-      /\ acc' = (acc \cup rv)
-      /\ IF \E h \in F : rh[h] # -1 /\ fr[Top].heads[h] # -1 /\ fr[Top].heads[h] # rh[h]
-            THEN /\ bad' = (bad \cup {"HeadIterationAssert"})
-            ELSE /\ TRUE
-                 /\ bad' = bad
-      /\ fr' = [fr EXCEPT ![Top] = [fr[Top] EXCEPT
-                                      !.heads = [h \in F |-> IF @[h] # -1 THEN @[h] ELSE rh[h]],
-                                      !.cat = Max2(@, rcat), !.dur = Min2(@, rdur),
-                                      !.deps = IF rdur # NEVER \/ HeadSet(rh) # {} THEN AddDep(@, calls[eq][ci]) ELSE @]]
-      /\ ci' = ci + 1
-      /\ pc' = "E2"
-      /\ UNCHANGED << prog, inp, rev, lastchg, memo, lock, xto, qstack, rv, rh, 
-                      rcat, rdur, rchg, rok, nops, nwr, lastreq, xlog, hist, 
-                      stack, fq, dq, di, dvat, mq, mr, eq, rounds, iteration, 
-                      old, lphas, lp, P, nh, dep, cit, last, flat >>
+      /\ IF unw # ""
+            THEN /\ pc' = "EU"
+            ELSE /\ pc' = "E3b"
+      /\ UNCHANGED << prog, inp, rev, lastchg, memo, lock, xto, qstack, fr, rv, 
+                      rh, rcat, rdur, rchg, rok, nops, nwr, lastreq, armed, 
+                      npan, unw, lastpanic, xlog, hist, bad, stack, fq, dq, di, 
+                      dvat, mq, mr, eq, ci, acc, rounds, iteration, old, lphas, 
+                      lp, P, nh, dep, cit, last, flat >>
+
+E3b == /\ pc = "E3b"
+       /\ acc' = (acc \cup rv)
+       /\ IF \E h \in F : rh[h] # -1 /\ fr[Top].heads[h] # -1 /\ fr[Top].heads[h] # rh[h]
+             THEN /\ bad' = (bad \cup {"HeadIterationAssert"})
+             ELSE /\ TRUE
+                  /\ bad' = bad
+       /\ fr' = [fr EXCEPT ![Top] = [fr[Top] EXCEPT
+                                       !.heads = [h \in F |-> IF @[h] # -1 THEN @[h] ELSE rh[h]],
+                                       !.cat = Max2(@, rcat), !.dur = Min2(@, rdur),
+                                       !.deps = IF rdur # NEVER \/ HeadSet(rh) # {} THEN AddDep(@, calls[eq][ci]) ELSE @]]
+       /\ ci' = ci + 1
+       /\ pc' = "E2"
+       /\ UNCHANGED << prog, inp, rev, lastchg, memo, lock, xto, qstack, rv, 
+                       rh, rcat, rdur, rchg, rok, nops, nwr, lastreq, armed, 
+                       npan, unw, lastpanic, xlog, hist, stack, fq, dq, di, 
+                       dvat, mq, mr, eq, rounds, iteration, old, lphas, lp, P, 
+                       nh, dep, cit, last, flat >>
 
 E4 == /\ pc = "E4"
       /\ IF HeadSet(fr[Top].heads) = {}
@@ -958,7 +1102,7 @@ E4 == /\ pc = "E4"
                        THEN /\ bad' = (bad \cup {"BackdateViolation"})
                        ELSE /\ TRUE
                             /\ bad' = bad
-                 /\ memo' = [memo EXCEPT ![eq] = [has |-> TRUE, val |-> acc, final |-> TRUE, heads |-> NoHeads, conv |-> FALSE, vat |-> rev,
+                 /\ memo' = [memo EXCEPT ![eq] = [has |-> TRUE, hv |-> TRUE, val |-> acc, final |-> TRUE, heads |-> NoHeads, conv |-> FALSE, vat |-> rev,
                                                   it |-> IF iteration = 0 THEN 0 ELSE iteration + 1,
                                                   cat |-> Backdated(old, NoHeads, fr[Top].dur, acc, fr[Top].cat), dur |-> fr[Top].dur,
                                                   deps |-> IF fr[Top].dur = NEVER THEN <<>> ELSE fr[Top].deps]]
@@ -970,9 +1114,10 @@ E4 == /\ pc = "E4"
                  /\ pc' = "E5"
                  /\ UNCHANGED << memo, lock, bad >>
       /\ UNCHANGED << prog, inp, rev, lastchg, xto, qstack, fr, rv, rh, rcat, 
-                      rdur, rchg, rok, nops, nwr, lastreq, xlog, hist, stack, 
-                      fq, dq, di, dvat, mq, mr, eq, ci, acc, rounds, iteration, 
-                      old, lphas, lp, nh, dep, cit, last >>
+                      rdur, rchg, rok, nops, nwr, lastreq, armed, npan, unw, 
+                      lastpanic, xlog, hist, stack, fq, dq, di, dvat, mq, mr, 
+                      eq, ci, acc, rounds, iteration, old, lphas, lp, nh, dep, 
+                      cit, last >>
 
 E5 == /\ pc = "E5"
       /\ IF \E h \in Followed(eq, HeadSet(fr[Top].heads), P) : ~memo[h].has \/ memo[h].final
@@ -986,9 +1131,10 @@ E5 == /\ pc = "E5"
       /\ cit' = MaxIter(eq, HeadSet(fr[Top].heads), P, iteration)
       /\ pc' = "E7"
       /\ UNCHANGED << prog, inp, rev, lastchg, memo, lock, xto, qstack, fr, rv, 
-                      rh, rcat, rdur, rchg, rok, nops, nwr, lastreq, xlog, 
-                      hist, stack, fq, dq, di, dvat, mq, mr, eq, ci, acc, 
-                      rounds, iteration, old, lphas, lp, P, last, flat >>
+                      rh, rcat, rdur, rchg, rok, nops, nwr, lastreq, armed, 
+                      npan, unw, lastpanic, xlog, hist, stack, fq, dq, di, 
+                      dvat, mq, mr, eq, ci, acc, rounds, iteration, old, lphas, 
+                      lp, P, last, flat >>
 
 E7 == /\ pc = "E7"
       /\ IF ~dep
@@ -999,7 +1145,7 @@ E7 == /\ pc = "E7"
                        ELSE /\ lock' = [lock EXCEPT ![eq] = "xfer"]
                             /\ xto' = [xto EXCEPT ![eq] = OuterOf(nh, eq)]
                             /\ bad' = bad
-                 /\ memo' = [memo EXCEPT ![eq] = [has |-> TRUE, val |-> IF Fb THEN {} ELSE acc, final |-> FALSE, heads |-> nh, conv |-> FALSE, it |-> iteration + 1,
+                 /\ memo' = [memo EXCEPT ![eq] = [has |-> TRUE, hv |-> TRUE, val |-> IF Fb THEN {} ELSE acc, final |-> FALSE, heads |-> nh, conv |-> FALSE, it |-> iteration + 1,
                                                   vat |-> rev, cat |-> fr[Top].cat, dur |-> fr[Top].dur, deps |-> flat]]
                  /\ pc' = "E6"
                  /\ UNCHANGED << acc, last >>
@@ -1012,13 +1158,14 @@ E7 == /\ pc = "E7"
                  /\ pc' = "E8"
                  /\ UNCHANGED << memo, lock, xto >>
       /\ UNCHANGED << prog, inp, rev, lastchg, qstack, fr, rv, rh, rcat, rdur, 
-                      rchg, rok, nops, nwr, lastreq, xlog, hist, stack, fq, dq, 
-                      di, dvat, mq, mr, eq, ci, rounds, iteration, old, lphas, 
-                      lp, P, nh, dep, cit, flat >>
+                      rchg, rok, nops, nwr, lastreq, armed, npan, unw, 
+                      lastpanic, xlog, hist, stack, fq, dq, di, dvat, mq, mr, 
+                      eq, ci, rounds, iteration, old, lphas, lp, P, nh, dep, 
+                      cit, flat >>
 
 E8 == /\ pc = "E8"
       /\ IF HasOuter(nh, eq)
-            THEN /\ memo' = [memo EXCEPT ![eq] = [has |-> TRUE, val |-> acc, final |-> FALSE, heads |-> nh, it |-> iteration, vat |-> rev,
+            THEN /\ memo' = [memo EXCEPT ![eq] = [has |-> TRUE, hv |-> TRUE, val |-> acc, final |-> FALSE, heads |-> nh, it |-> iteration, vat |-> rev,
                                                   conv |-> (acc = last.val /\ last.dur = fr[Top].dur /\ last.cat = fr[Top].cat),
                                                   cat |-> fr[Top].cat, dur |-> fr[Top].dur, deps |-> flat]]
                  /\ lock' = [lock EXCEPT ![eq] = "xfer"]
@@ -1032,7 +1179,7 @@ E8 == /\ pc = "E8"
                                   ELSE /\ TRUE
                                        /\ bad' = bad
                             /\ memo' = [j \in F |->
-                                         IF j = eq THEN [has |-> TRUE, val |-> acc, final |-> TRUE, heads |-> NoHeads, conv |-> FALSE,
+                                         IF j = eq THEN [has |-> TRUE, hv |-> TRUE, val |-> acc, final |-> TRUE, heads |-> NoHeads, conv |-> FALSE,
                                                          it |-> iteration, vat |-> rev, dur |-> fr[Top].dur,
                                                          cat |-> Backdated(old, NoHeads, fr[Top].dur, acc, fr[Top].cat),
                                                          deps |-> IF fr[Top].dur = NEVER THEN <<>> ELSE flat]
@@ -1042,7 +1189,7 @@ E8 == /\ pc = "E8"
                             /\ pc' = "E6"
                             /\ UNCHANGED << rounds, iteration, lphas, lp >>
                        ELSE /\ memo' = [j \in F |->
-                                         IF j = eq THEN [has |-> TRUE, val |-> acc, final |-> FALSE, conv |-> FALSE, it |-> cit + 1,
+                                         IF j = eq THEN [has |-> TRUE, hv |-> TRUE, val |-> acc, final |-> FALSE, conv |-> FALSE, it |-> cit + 1,
                                                          vat |-> rev, cat |-> fr[Top].cat, dur |-> fr[Top].dur, deps |-> flat,
                                                          heads |-> [nh EXCEPT ![eq] = cit + 1]]
                                          ELSE IF j \in HeadSet(nh) /\ memo[j].has
@@ -1051,7 +1198,7 @@ E8 == /\ pc = "E8"
                                          ELSE memo[j]]
                             /\ iteration' = cit + 1
                             /\ lphas' = TRUE
-                            /\ lp' = [has |-> TRUE, val |-> acc, final |-> FALSE, conv |-> FALSE, it |-> cit + 1,
+                            /\ lp' = [has |-> TRUE, hv |-> TRUE, val |-> acc, final |-> FALSE, conv |-> FALSE, it |-> cit + 1,
                                       vat |-> rev, cat |-> fr[Top].cat, dur |-> fr[Top].dur, deps |-> flat,
                                       heads |-> [nh EXCEPT ![eq] = cit + 1]]
                             /\ rounds' = rounds + 1
@@ -1063,9 +1210,9 @@ E8 == /\ pc = "E8"
                             /\ lock' = lock
                  /\ xto' = xto
       /\ UNCHANGED << prog, inp, rev, lastchg, qstack, fr, rv, rh, rcat, rdur, 
-                      rchg, rok, nops, nwr, lastreq, xlog, hist, stack, fq, dq, 
-                      di, dvat, mq, mr, eq, ci, acc, old, P, nh, dep, cit, 
-                      last, flat >>
+                      rchg, rok, nops, nwr, lastreq, armed, npan, unw, 
+                      lastpanic, xlog, hist, stack, fq, dq, di, dvat, mq, mr, 
+                      eq, ci, acc, old, P, nh, dep, cit, last, flat >>
 
 E6 == /\ pc = "E6"
       /\ qstack' = SubSeq(qstack, 1, Len(qstack) - 1)
@@ -1087,10 +1234,35 @@ E6 == /\ pc = "E6"
       /\ eq' = Head(stack).eq
       /\ stack' = Tail(stack)
       /\ UNCHANGED << prog, inp, rev, lastchg, memo, lock, xto, rv, rh, rcat, 
-                      rdur, rchg, rok, nops, nwr, lastreq, xlog, hist, bad, fq, 
-                      dq, di, dvat, mq, mr >>
+                      rdur, rchg, rok, nops, nwr, lastreq, armed, npan, unw, 
+                      lastpanic, xlog, hist, bad, fq, dq, di, dvat, mq, mr >>
 
-Exec == E0 \/ E1 \/ E2 \/ E3 \/ E4 \/ E5 \/ E7 \/ E8 \/ E6
+EU == /\ pc = "EU"
+      /\ memo' = [memo EXCEPT ![eq] = Poison(eq)]
+      /\ lock' = Released(eq)
+      /\ qstack' = SubSeq(qstack, 1, Len(qstack) - 1)
+      /\ fr' = SubSeq(fr, 1, Len(fr) - 1)
+      /\ pc' = Head(stack).pc
+      /\ ci' = Head(stack).ci
+      /\ acc' = Head(stack).acc
+      /\ rounds' = Head(stack).rounds
+      /\ iteration' = Head(stack).iteration
+      /\ old' = Head(stack).old
+      /\ lphas' = Head(stack).lphas
+      /\ lp' = Head(stack).lp
+      /\ P' = Head(stack).P
+      /\ nh' = Head(stack).nh
+      /\ dep' = Head(stack).dep
+      /\ cit' = Head(stack).cit
+      /\ last' = Head(stack).last
+      /\ flat' = Head(stack).flat
+      /\ eq' = Head(stack).eq
+      /\ stack' = Tail(stack)
+      /\ UNCHANGED << prog, inp, rev, lastchg, xto, rv, rh, rcat, rdur, rchg, 
+                      rok, nops, nwr, lastreq, armed, npan, unw, lastpanic, 
+                      xlog, hist, bad, fq, dq, di, dvat, mq, mr >>
+
+Exec == E0 \/ E1 \/ E2 \/ E3 \/ E3b \/ E4 \/ E5 \/ E7 \/ E8 \/ E6 \/ EU
 
 L0 == /\ pc = "L0"
       /\ IF nops < MaxOps
@@ -1102,36 +1274,48 @@ L0 == /\ pc = "L0"
                                                 fq        |->  fq ] >>
                                             \o stack
                             /\ pc' = "F0"
-                       /\ UNCHANGED <<inp, rev, lastchg, nops, nwr, hist>>
+                       /\ UNCHANGED <<inp, rev, lastchg, nops, nwr, armed, npan, hist>>
                     \/ /\ nwr < MaxWrites
                        /\ inp' = ~inp
                        /\ rev' = rev + 1
                        /\ lastchg' = rev'
                        /\ nwr' = nwr + 1
                        /\ nops' = nops + 1
-                       /\ hist' = Append(hist, [op |-> "set", f |-> 0, v |-> {}, ex |-> <<>>])
+                       /\ hist' = Append(hist, [op |-> "set", f |-> 0, v |-> {}, ex |-> <<>>, res |-> "ok"])
                        /\ pc' = "L0"
-                       /\ UNCHANGED <<lastreq, stack, fq>>
+                       /\ UNCHANGED <<lastreq, armed, npan, stack, fq>>
+                    \/ /\ npan < MaxPanics /\ armed = 0
+                       /\ \E j \in F:
+                            /\ armed' = j
+                            /\ hist' = Append(hist, [op |-> "arm", f |-> j, v |-> {}, ex |-> <<>>, res |-> "ok"])
+                       /\ npan' = npan + 1
+                       /\ nops' = nops + 1
+                       /\ pc' = "L0"
+                       /\ UNCHANGED <<inp, rev, lastchg, nwr, lastreq, stack, fq>>
             ELSE /\ pc' = "L2"
-                 /\ UNCHANGED << inp, rev, lastchg, nops, nwr, lastreq, hist, 
-                                 stack, fq >>
+                 /\ UNCHANGED << inp, rev, lastchg, nops, nwr, lastreq, armed, 
+                                 npan, hist, stack, fq >>
       /\ UNCHANGED << prog, memo, lock, xto, qstack, fr, rv, rh, rcat, rdur, 
-                      rchg, rok, xlog, bad, dq, di, dvat, mq, mr, eq, ci, acc, 
-                      rounds, iteration, old, lphas, lp, P, nh, dep, cit, last, 
-                      flat >>
+                      rchg, rok, unw, lastpanic, xlog, bad, dq, di, dvat, mq, 
+                      mr, eq, ci, acc, rounds, iteration, old, lphas, lp, P, 
+                      nh, dep, cit, last, flat >>
 
 L1 == /\ pc = "L1"
-      /\ bad' = (bad \cup (IF rv # Expected[lastreq] THEN {IF Fb THEN "C13" ELSE "C12"} ELSE {})
+      /\ bad' = (bad \cup (IF unw = "" /\ rv # Expected[lastreq] THEN {IF Fb THEN "C13" ELSE "C12"} ELSE {})
+                     \cup (IF unw = "pp" /\ lastpanic # rev THEN {"C22-PropagatedPanicInLaterRevision"} ELSE {})
                      \cup (IF qstack # <<>> THEN {"StackLeft"} ELSE {})
                      \cup (IF \E j \in F : lock[j] = "held" \/ (lock[j] = "xfer" /\ Owned(j)) THEN {"LockLeft"} ELSE {}))
       /\ nops' = nops + 1
-      /\ hist' = Append(hist, [op |-> "get", f |-> lastreq, v |-> rv, ex |-> xlog])
+      /\ hist' = Append(hist, [op |-> "get", f |-> lastreq, v |-> IF unw = "" THEN rv ELSE {}, ex |-> xlog,
+                               res |-> IF unw = "" THEN "ok" ELSE unw])
       /\ xlog' = <<>>
+      /\ unw' = ""
       /\ pc' = "L0"
       /\ UNCHANGED << prog, inp, rev, lastchg, memo, lock, xto, qstack, fr, rv, 
-                      rh, rcat, rdur, rchg, rok, nwr, lastreq, stack, fq, dq, 
-                      di, dvat, mq, mr, eq, ci, acc, rounds, iteration, old, 
-                      lphas, lp, P, nh, dep, cit, last, flat >>
+                      rh, rcat, rdur, rchg, rok, nwr, lastreq, armed, npan, 
+                      lastpanic, stack, fq, dq, di, dvat, mq, mr, eq, ci, acc, 
+                      rounds, iteration, old, lphas, lp, P, nh, dep, cit, last, 
+                      flat >>
 
 L2 == /\ pc = "L2"
       /\ IF Emit
@@ -1139,10 +1323,10 @@ L2 == /\ pc = "L2"
             ELSE /\ TRUE
       /\ pc' = "Done"
       /\ UNCHANGED << prog, inp, rev, lastchg, memo, lock, xto, qstack, fr, rv, 
-                      rh, rcat, rdur, rchg, rok, nops, nwr, lastreq, xlog, 
-                      hist, bad, stack, fq, dq, di, dvat, mq, mr, eq, ci, acc, 
-                      rounds, iteration, old, lphas, lp, P, nh, dep, cit, last, 
-                      flat >>
+                      rh, rcat, rdur, rchg, rok, nops, nwr, lastreq, armed, 
+                      npan, unw, lastpanic, xlog, hist, bad, stack, fq, dq, di, 
+                      dvat, mq, mr, eq, ci, acc, rounds, iteration, old, lphas, 
+                      lp, P, nh, dep, cit, last, flat >>
 
 (* Allow infinite stuttering to prevent deadlock on termination. *)
 Terminating == pc = "Done" /\ UNCHANGED vars
